@@ -1087,7 +1087,7 @@ def channels(ctx):
         if "place" in c.corruption:
             # … in static and live sessions, $Time$ and $Number$ addressing
             k += (c.corruption["place"], addressing(c))
-            limit = 1 if not ctx.thorough else 10 ** 6
+            limit = 1 if not ctx.thorough else 8
             if seen.get(k, 0) < limit:
                 seen[k] = seen.get(k, 0) + 1
                 kinds_first.append(c)
@@ -1100,7 +1100,7 @@ def channels(ctx):
             k += (c.query.get("mup", "default"), c.corruption.get("at"), c.corruption.get("loads", 0) >= 6)
             if c.corruption.get("at") == "any":
                 k += (bool(c.query.get("timeline")), c.template)
-            limit = 1 if not ctx.thorough else 10 ** 6
+            limit = 1 if not ctx.thorough else 4      # the rest of them run after the other kinds had their turn
             if seen.get(k, 0) < limit:
                 seen[k] = seen.get(k, 0) + 1
                 kinds_first.insert(0, c)
